@@ -30,6 +30,8 @@ def main():
         # the implementation does not build: nothing can be run against it
         sys.exit(vlib.finish(ctx))
     ctx.model_ok = bool(oko)
+    if oko and okc and tier == "thorough" and not a.replay:
+        vlib.step_incoq(ctx)
     if a.replay:
         sys.exit(mod.replay(ctx, json.load(open(a.replay))))
     if hasattr(mod, "inventory"):
